@@ -385,6 +385,10 @@ def type_alias_probes(ctx: Ctx, eng):
         (ns["Half"][str, int], list[str], [["a"], [1]]),
         (ns["Plain"][int], list[int], [[1], ["a"]]),
         (ns["Nested"][str, int], dict[str, list[tuple[int, str]]], [{"k": [(1, "a")]}, {"k": [("a", 1)]}]),
+        # several parametrisations of ONE alias are different cases of a union: each stays reachable
+        (typing.Union[ns["Plain"][int], ns["Plain"][str], None], typing.Union[list[int], list[str], None], [[1], ["a", "b"], None, [1.5]]),
+        (dict[str, typing.Union[ns["Swapped"][str, int], ns["Swapped"][str, str], int]],
+         dict[str, typing.Union[dict[int, str], dict[str, str], int]], [{"x": {1: "v"}}, {"x": {"k": "v"}}, {"x": 3}]),
     ]
     for alias, plain, data in cases:
         for d in data:
